@@ -34,6 +34,9 @@ def main() -> int:
                 break
             env.case = case
             env.evaluations += 1
+            # sidecar for the parent: which case was running if this process dies in native code
+            with open(outfile + ".cur", "w") as cf:
+                json.dump({"index": i, "case": core.jsonable(case)}, cf)
             env.sample(case)
             try:
                 mod.run_case(case, env)
